@@ -183,8 +183,8 @@ def r17b(ck, prog):
 def run(ck, progs):
     describe(ck)
     for cfg, prog in progs.items():
-        r17a(ck, prog)
-        r17b(ck, prog)
+        ck.attempt(r17a, ck, prog)
+        ck.attempt(r17b, ck, prog)
     return ("CFG dominance of both sort calls over the pairing loop, argument pairing and loop ranges of the compare_pair "
             "call, field read set of the row-matching comparator; classification of compare_pair's counters by the row "
             "parameters their loops scan, and reaching definitions of numerator and denominator of the stored score.")
